@@ -22,6 +22,7 @@ type C10Case struct {
 	Script
 	Reuse bool    `json:"reuse"`           // the application reuses one message object for all its sends
 	Prior *Script `json:"prior,omitempty"` // an earlier logged-on session on the same stores, after which the application reset both counters (a new trading day): the numbers start again at 1 and the store must answer with the NEW messages
+	CounterFails bool `json:"counter_fails,omitempty"`
 	Stamp bool    `json:"stamp"`           // an application outgoing handler stamps every message that has a Text field (the documented use of HandleOutgoing): what goes out first, and is stored, carries the stamp
 }
 
@@ -71,8 +72,23 @@ func genC10(t *rapid.T) *C10Case {
 		g.sent++
 	}
 	nr := rapid.IntRange(1, 6).Draw(t, "requests")
+	failAt := -1
+	if rapid.IntRange(0, 7).Draw(t, "counterFails") == 0 {
+		// the counter store stops recording numbers (SetSeqNum fails) before one of the
+		// requests: the incoming number of the request cannot be recorded, what was sent is
+		// still in the message store and is retransmitted all the same
+		failAt = rapid.IntRange(0, nr-1).Draw(t, "failAt")
+	}
 	for i := 0; i < nr; i++ {
+		if i == failAt {
+			add(rig.Step{Op: "counter-fails"})
+			c.CounterFails = true
+		}
 		b, e := g.resendRange()
+		if rapid.IntRange(0, 11).Draw(t, "negativeEnd") == 0 {
+			// an EndSeqNo below zero is not "through the last message sent": the range is empty
+			e = -rapid.IntRange(1, 3).Draw(t, "negE")
+		}
 		add(rig.Step{Op: "in", In: g.resend(b, e)})
 		if rapid.IntRange(0, 4).Draw(t, "between") == 0 {
 			add(rig.Step{Op: "send", ID: fmt.Sprintf("late%d", i)})
@@ -182,6 +198,8 @@ func checkC10(c *C10Case, rec *evid.Rec) (vs []pbt.Violation) {
 			kind = "inside"
 		case b >= 1 && b <= lastBefore && e == 0:
 			kind = "to-end"
+		case e < 0:
+			kind = "negative-end"
 		case b > e && e != 0:
 			kind = "b>e"
 		case b == 0:
@@ -230,6 +248,9 @@ func checkC10(c *C10Case, rec *evid.Rec) (vs []pbt.Violation) {
 	rec.Hist("role:" + c.Cfg.Role)
 	if c.Stamp {
 		rec.Hist("stamping-outgoing-handler")
+	}
+	if c.CounterFails {
+		rec.Hist("counter-store-refuses-writes-before-a-request")
 	}
 	if c.Cfg.PartitionStore {
 		rec.Hist("store-partitioned-by-identity")
